@@ -32,7 +32,7 @@ def configs(tier, seed):
   i = 0
   for mx in (1, 2, 5):
     for wbf in (None, 1, 7):
-      for cache in (('off', 0, 0), ('lru', 50, 0), ('ttl', 50, 300)):
+      for cache in (('off', 0, 0), ('lru', 50, 0), ('ttl', 50, 300), ('ttljit', 50, 1)):
         for fwd in (True, False):
           i += 1
           if tier == 'quick' and i % 3 != 0:
@@ -92,6 +92,17 @@ def run_config(cfg, res):
     lc.clock = world['fake']
     return lc
   buffers.LoopingCall = lc_factory
+  if cfg['cache'][0] == 'ttljit':
+    # the name caches' TTL clock: virtual time plus a little real processing time with every look at the clock, so that
+    # entries expire at arbitrary moments - also between two accesses of one lookup
+    import cachetools
+    import carbon.aggregator.rules as rules_mod
+    ticks = [0]
+
+    def jitter_clock():
+      ticks[0] += 1
+      return BASE + world['fake'].seconds() + ticks[0] * 0.05
+    rules_mod.TTLCache = lambda size, ttl: cachetools.TTLCache(size, ttl, timer=jitter_clock)
   flushes = []
   real_compute = buffers.MetricBuffer.compute_value
 
